@@ -119,6 +119,85 @@ def explore(label: str, cfg: Dict[str, Any], budget: int, rng: random.Random, ch
     return traces
 
 
+def probe_node_actions(game, node_name: str, rng: random.Random, numbering, cur: int, events, meta, chk, label: str,
+                       only=("node-file-", "node-folder-")):
+    """Dry-run every agent action aimed at one node (no execution): an action whose parameters name existing
+    components must resolve to that component's operation, whatever the history of the node."""
+    sim = game.simulation
+    for (aname, opts, exist) in rq.action_instances(game, rng, per_type=50):
+        if only and not aname.startswith(only):
+            continue
+        tgt = opts.get("node_name") or opts.get("target_router") or opts.get("target_firewall_nodename") or opts.get("target_nodename") or opts.get("source_node")
+        if tgt != node_name:
+            continue
+        try:
+            req = rq.form(aname, opts)
+        except Exception:  # noqa
+            continue
+        obs, leaf = rq.dry_run(sim, req)
+        events.append(rq.req_event(obs, leaf, False, "", False, cur, cur, "na", True, exist))
+        meta.append({"request": [str(x)[:60] for x in req], "kind": aname, "mutation": "wellformed", "raised": None, "probe": True})
+        chk.add_case({"s": label, "k": aname, "probe": [tuple(sorted(o.items())) for o in obs]}, nontrivial=True)
+
+
+def explore_fs_histories(behs, rng: random.Random, chk: common.Check) -> List[Dict[str, Any]]:
+    """State generator from another module of the library: behaviours of the file-system model (create / delete /
+    restore of files and folders, ticks) are executed on a host and after every operation all file / folder actions
+    of that host are probed."""
+    from .c15 import _args
+
+    traces = []
+    for bi, beh in enumerate(behs):
+        game = scenarios.build(scenarios.p2p())
+        sim = game.simulation
+        fs = sim.network.get_node_by_hostname("a").file_system
+        for fo in fs.folders.values():
+            fo.restore_duration = 1 + bi % 3
+        fs._default_folder_restore_duration = 1 + bi % 3
+        numbering = rq.DigestNumbering()
+        events, meta = [], []
+        cur = numbering.num(rq.state_digest(sim))
+        start = cur
+
+        def req(tail):
+            return sim.apply_request(["network", "node", "a", "file_system"] + tail)
+
+        for st in beh[1:]:
+            a, args = st["action"], _args(st["params"])
+            try:
+                if a == "MPreTick":
+                    game.pre_timestep()
+                elif a == "MTick":
+                    game.advance_timestep()
+                elif a == "MCreateFile":
+                    req(["create", "file", args[0], args[1], False])
+                elif a == "MCreateFolder":
+                    req(["create", "folder", args[0]])
+                elif a == "MDeleteFile":
+                    req(["delete", "file", args[0], args[1]])
+                elif a == "MDeleteFolder":
+                    req(["delete", "folder", args[0]])
+                elif a == "MRestoreFile":
+                    req(["restore", "file", args[0], args[1]])
+                elif a == "MRestoreFolder":
+                    req(["restore", "folder", args[0]])
+            except Exception:  # noqa - C15 reports exceptions of these operations
+                break
+            cur = numbering.num(rq.state_digest(sim))
+            events.append(rq.tick_event(cur))
+            meta.append({"request": [a] + args})
+            probe_node_actions(game, "a", rng, numbering, cur, events, meta, chk, "fs-history")
+        dig = start
+        CH = 40
+        for i in range(0, len(events), CH):
+            evs = events[i : i + CH]
+            traces.append({"cfg": {"dig": dig}, "ev": evs, "meta": {"scenario": "fs-history", "requests": meta[i : i + CH]}})
+            for e in evs:
+                if e["ev"] == "Tick" or e["exec"]:
+                    dig = e["post"]
+    return traces
+
+
 def sig_fn(tr, event, stuck):
     pos = (stuck or {}).get("pos", 1)
     m = tr["meta"]["requests"][pos - 1] if 0 < pos <= len(tr["meta"]["requests"]) else {}
@@ -142,6 +221,23 @@ def main(tier: str, seed: int) -> int:
     budget = 260 if tier == "quick" else 2500
     for label, cfg in scenario_list(tier):
         traces += explore(label, cfg, budget, rng, chk)
+    fs_behs, info = tlc.simulate("MC_FileSystem", "Sim_FileSystem.cfg", num=25 if tier == "quick" else 250, depth=30, seed=seed + 4)
+    # plus every short history of ONE file and its folder over the file-system model's action alphabet (bounded-
+    # exhaustive: all sequences of length <= 3, a seeded sample of length 4 / all of length 4 in thorough), each followed
+    # by enough ticks for a timed folder restore to complete
+    import itertools
+
+    def st(a, p=""):
+        return {"action": a, "params": p, "state": {}}
+
+    alphabet = [st("MCreateFile", '"f","a.txt"'), st("MDeleteFile", '"f","a.txt"'), st("MDeleteFolder", '"f"'),
+                st("MRestoreFile", '"f","a.txt"'), st("MRestoreFolder", '"f"'), st("MTick")]
+    tail = [st("MPreTick"), st("MTick"), st("MPreTick"), st("MTick"), st("MPreTick"), st("MTick"), st("MPreTick"), st("MTick")]
+    seqs = [list(x) for n in (1, 2, 3) for x in itertools.product(alphabet, repeat=n)]
+    four = [list(x) for x in itertools.product(alphabet, repeat=4)]
+    seqs += four if tier == "thorough" else rng.sample(four, 150)
+    directed = [[st("Init"), st("MCreateFile", '"f","a.txt"')] + q + tail for q in seqs]
+    traces += explore_fs_histories(fs_behs + directed, rng, chk)
     res = tlc.validate("RequestsTrace", traces)
     common.judge_traces(chk, "Requests", traces, res, sig_fn, selftest="RequestsTrace")
     for tr in traces[:2]:
